@@ -251,6 +251,8 @@ def check(run):
     # ------------------------------------------------------------------ R4 dependents
     _dependents(run, ix, ef, owners)
     _stale_locals(run, ix)
+    from ..memostore import memo_store_rule
+    memo_store_rule(run, ix, "R13", "C01", module_filter=None, floor=20)
     _salvage_sites(run, ix, ef, T)
 
     run.extra["effect_engine"] = dict(ef.stats)
